@@ -20,7 +20,8 @@ RULE = ('source streams of few chunks (zeros, random bytes, clean images of the 
         'the expected one included), a bounded family of allowed_formats, file-like (read) and iterator (next) '
         'sources; plus genuine parser errors raised by crafted content (VHDX bad region signature / region count / '
         'metadata signature on >= 256 KiB streams, VMDK bad version and descriptor location) with and without '
-        'injected faults; the exception type of a fault varied over 18 classes (struct.error, ImageFormatError, OSError, '
+        'injected faults; expected_format / allowed_formats passed as plain str or as (str, Enum) members, str '
+        'subclasses, subclasses with their own __str__/__repr__/__format__; the exception type of a fault varied over 18 classes (struct.error, ImageFormatError, OSError, '
         'plain Exception subclasses ...) and its shape over 12 (no / empty / several / non-string / None / bytes '
         'arguments, arguments or classes whose str()/repr() raise, a 300 kB message), with the module logger silent '
         'or at DEBUG with a handler, raised in front of eat_chunk or from post_process inside it; faults inside '
@@ -55,7 +56,7 @@ def generate():
 
 
 def plan_cases(ctx):
-    """(label, data, sizes, allowed, expected, faults, iterator, debug logging on)"""
+    """(label, data, sizes, allowed, expected, faults, iterator, debug logging on, name kind)"""
     rng = ctx.rng
     quick = ctx.quick
     streams = G.c06_streams(rng, quick)
@@ -158,7 +159,10 @@ def plan_cases(ctx):
             out.append((label, data, sizes, None if quick else rng.choice([None, ['vhdx', 'raw', 'iso']]), e, fl,
                         rng.random() < 0.5))
     # last element: is the module logger at DEBUG with a handler attached? (a fifth of the older cases too)
-    return [c if len(c) == 8 else c + (rng.random() < 0.2,) for c in out]
+    out = [c if len(c) == 8 else c + (rng.random() < 0.2,) for c in out]
+    # ... and how expected_format / allowed_formats entries are passed: plain str, or an unusual but legal str
+    # ((str, Enum) member, str subclass, subclass with its own __str__ / __repr__ / __format__) - same outcome
+    return [c + (rng.choice(['str', 'str', 'str'] + list(G.NAME_KINDS[1:])) if (c[4] or c[3]) else 'str',) for c in out]
 
 
 def show_fault(f):
@@ -166,33 +170,36 @@ def show_fault(f):
     return '%s@%d' % (n, k) + ('' if kind == 'eat:RuntimeError' else '[%s]' % kind)
 
 
-def case_of(label, data, sizes, allowed, expected, faults, iterator, must_complete=False, log=False):
+def case_of(label, data, sizes, allowed, expected, faults, iterator, must_complete=False, log=False, names='str'):
     c = {'label': label, 'content': insp_impl.content_field(data), 'sizes': list(sizes), 'allowed': allowed,
          'expected': expected, 'faults': [list(f) for f in faults], 'iterator': bool(iterator)}
     if must_complete:
         c['must_complete'] = True
     if log:
         c['debug_logging'] = True
+    if names != 'str':
+        c['names'] = names
     return c
 
 
 def correspondence(ctx):
     cases = plan_cases(ctx)
-    lines = [G.fault_req(al, e, data, sizes, fl) for _, data, sizes, al, e, fl, _it, _log in cases]
+    lines = [G.fault_req(al, e, data, sizes, fl) for _, data, sizes, al, e, fl, _it, _log, _nk in cases]
     replies = G.ask_par(ctx.driver, lines)
     out = []
-    for (label, data, sizes, al, e, fl, it, log), rep in zip(cases, replies):
+    for (label, data, sizes, al, e, fl, it, log, nk), rep in zip(cases, replies):
         ctx.evaluations += 1
+        ctx.count('names-as/' + nk)
         ctx.count('logger/' + ('debug+handler' if log else 'silent'))
         if all(len(f) == 2 for f in fl):
             try:
                 with G.debug_logging(log):
-                    impl, info = insp_impl.run_fault(al, e, data, sizes, fl, iterator=it)
+                    impl, info = insp_impl.run_fault(G.as_names(nk, al), G.as_name(nk, e), data, sizes, fl, iterator=it)
             except Exception as ex:
                 impl, info = 'ESCAPED:%s' % type(ex).__name__, {'end': 'escaped', 'errored': ()}
         else:       # typed / shaped / post_process / property faults: the instrumented runner, rendered the same way
             with G.debug_logging(log):
-                t = G.pipe_trace(al, e, data, sizes, fl, it)
+                t = G.pipe_trace(al, e, data, sizes, fl, it, name_kind=nk)
             impl = G.render_trace(t)
             info = {'end': impl.split('end=')[1].split('\t')[0], 'errored': t['errored']}
             for f in fl:
@@ -206,13 +213,13 @@ def correspondence(ctx):
         ctx.count('faults/%d' % min(len(fl), 3))
         ctx.count('expected/' + ('none' if not e else 'given'))
         if info['errored'] or info['end'] != 'done':
-            ctx.nontrivial((G.digest(data), tuple(sizes), tuple(fl), e, tuple(al or ()), it, log))
+            ctx.nontrivial((G.digest(data), tuple(sizes), tuple(fl), e, tuple(al or ()), it, log, nk))
         if ctx.evaluations % 331 == 1:
             ctx.sample({'stream': label, 'chunk_sizes': sizes, 'expected_format': e, 'allowed_formats': al,
                         'faults': [show_fault(f) for f in fl], 'source': 'iterator' if it else 'file-like',
                         'implementation': ci.replace('\t', ' | ')}, 8)
         if ci != cm:
-            out.append(Disagreement(case_of(label, data, sizes, al, e, fl, it, log=log), ci, cm))
+            out.append(Disagreement(case_of(label, data, sizes, al, e, fl, it, log=log, names=nk), ci, cm))
     ctx.exhaustive = True
     return out
 
@@ -220,12 +227,12 @@ def correspondence(ctx):
 # --------------------------------------------------------------------------
 # failing-input search: the property on the implementation only
 
-def oracle(allowed, expected, data, sizes, faults, iterator, must_complete=False, log=False):
+def oracle(allowed, expected, data, sizes, faults, iterator, must_complete=False, log=False, names='str'):
     """`must_complete`: the content matches the expected format and no fault is planned for that inspector,
     so the reader must get every byte and no exception"""
     F = G.fi()
     with G.debug_logging(log):
-        t = G.pipe_trace(allowed, expected, data, sizes, faults, iterator)
+        t = G.pipe_trace(allowed, expected, data, sizes, faults, iterator, name_kind=names)
     chunks, out, (end, exc), ev = t['chunks'], t['out'], t['end'], t['events']
     m = len(out)
     if t['fed_after_finish']:
@@ -313,10 +320,14 @@ def search(ctx, seeds, full=False):
     fails = []
     kinds = {}
 
-    def run(label, data, sizes, al, e, fl, it, mc=False, log=False):
+    def run(label, data, sizes, al, e, fl, it, mc=False, log=False, names=None):
         ctx.evaluations += 1
         fl = [tuple(f) for f in fl]
-        why = oracle(al, e, data, sizes, fl, it, mc, log)
+        if names is None:       # how expected_format / allowed_formats are passed: mostly plain, sometimes a str subclass
+            names = 'str' if not (e or al) or rng.random() < 0.6 else rng.choice(G.NAME_KINDS[1:])
+        why = oracle(al, e, data, sizes, fl, it, mc, log, names)
+        if why and names != 'str' and oracle(al, e, data, sizes, fl, it, mc, log, 'str'):
+            names = 'str'
         if not why:
             return
         kind = ' '.join(w for w in why.split(' ') if not any(ch.isdigit() for ch in w))[:70]
@@ -325,24 +336,28 @@ def search(ctx, seeds, full=False):
             return
         # shrink: fewer faults, then no allowed_formats restriction
         def still(sub):
-            return oracle(al, e, data, sizes, sub, it, mc, log) is not None
+            return oracle(al, e, data, sizes, sub, it, mc, log, names) is not None
         small = fl
         if len(fl) > 1:
             small = common.shrink_list(fl, still, max_steps=40)
-        if fl and oracle(al, e, data, sizes, [], it, mc, log):
+        if fl and oracle(al, e, data, sizes, [], it, mc, log, names):
             small = []
-        if log and oracle(al, e, data, sizes, small, it, mc, False):
+        if log and oracle(al, e, data, sizes, small, it, mc, False, names):
             log = False
-        fails.append(Failure(case_of(label, data, sizes, al, e, small, it, mc, log),
-                             {'kind': kind, 'what': '%s: %s%s' % (label, oracle(al, e, data, sizes, small, it, mc, log),
-                                                                  ' [logger at DEBUG with a handler]' if log else '')}))
+        fails.append(Failure(case_of(label, data, sizes, al, e, small, it, mc, log, names),
+                             {'kind': kind, 'what': '%s: %s%s%s' % (
+                                 label, oracle(al, e, data, sizes, small, it, mc, log, names),
+                                 ' [logger at DEBUG with a handler]' if log else '',
+                                 '' if names == 'str' else ' [expected_format / allowed_formats passed as %s; with plain '
+                                 'str the property holds]' % names)}))
 
     for s in seeds[:300]:
         run(s.get('label', 'seed'), G.decode_content(s['content']), s['sizes'], s.get('allowed'), s.get('expected'),
-            s.get('faults', []), s.get('iterator', False), s.get('must_complete', False), s.get('debug_logging', False))
+            s.get('faults', []), s.get('iterator', False), s.get('must_complete', False), s.get('debug_logging', False),
+            s.get('names', 'str'))
         run(s.get('label', 'seed'), G.decode_content(s['content']), s['sizes'], s.get('allowed'), s.get('expected'),
             s.get('faults', []), not s.get('iterator', False), s.get('must_complete', False),
-            s.get('debug_logging', False))
+            s.get('debug_logging', False), s.get('names', 'str'))
     streams = G.c06_streams(rng, ctx.quick)
     exps = [None] + G.ALLF
     # matching content, zero-length reads in mid-stream and reads after EOF: every byte, no exception
@@ -425,8 +440,11 @@ def replay(ctx, payload):
     log = case.get('debug_logging', False)
     if log:
         print('module logger at DEBUG with a StreamHandler attached')
+    nk = case.get('names', 'str')
+    if nk != 'str':
+        print('expected_format / allowed_formats passed as %s: %r' % (nk, G.as_name(nk, e)))
     with G.debug_logging(log):
-        t = G.pipe_trace(al, e, data, sizes, fl, it)
+        t = G.pipe_trace(al, e, data, sizes, fl, it, name_kind=nk)
     print('implementation:', G.canon_fault(G.render_trace(t), e).replace('\t', ' | '))
     if t['prop_reads']:
         print('                faulty properties read:', sorted(set((n, p_, k) for n, p_, k, _ in t['prop_reads']))[:8])
@@ -435,7 +453,7 @@ def replay(ctx, payload):
         print('model         :', G.canon_fault(model, e).replace('\t', ' | '))
     except ValueError as ve:
         print('model         : (%s)' % ve)
-    why = oracle(al, e, data, sizes, fl, it, case.get('must_complete', False), log)
+    why = oracle(al, e, data, sizes, fl, it, case.get('must_complete', False), log, nk)
     print('property oracle on the implementation:', why)
     return 1 if why else 0
 
